@@ -9,6 +9,7 @@ the theorems are about the pinned copy and `rules_unchanged` ties the two.
 import Verif.Model.Types.Subtype
 import Verif.Model.Types.RulesPinned
 import Verif.Gen.SubtypeRules
+import Verif.Proofs.SubStruct
 namespace Verif.Properties.C08
 open Verif.Model.Types Verif.Model.Auth
 
@@ -67,12 +68,19 @@ theorem runtime_agrees_partial (a b : Ty) (fuel : Nat) (h : ∀ t, a ≠ .opt t)
       simp [refl]
     · simp [hb, hab]
 
-/-- Transitivity, **partial**: proved only where one of the three bounds/equalities applies.
+/-- Transitivity, **partial**: the region where one of the bounds / equalities applies.  The other
+    proved regions are `trans_simple_partial` (the whole simple-type lattice) and
+    `trans_covariant_partial` (any stack of array / optional constructors over it).
     Full statement (NOT proved; false as it stands, see `trans_witness`):
       `∀ a b c, WF a → WF b → WF c → kindStable a → a <: b → b <: c → a <: c`
     where `kindStable a` = no `Never` directly below an optional / array / dictionary constructor.
-    Missing: the induction over the rule interpreter for the constructors and the finite table for the
-    simple-type lattice; the `types` stream checks transitivity on chain-biased triples instead. -/
+    Missing: (1) agreement of the interpreter with the structured relation `Struct.sub` beyond simple
+    types and covariant containers (dictionaries, references, nominal types, intersections, functions,
+    capabilities: one unfolding lemma per rule, as `isSub_varArr`); (2) chains that *change shape*
+    — a container below `AnyStruct` / `AnyResource` / `HashableStruct` or below an optional of its
+    supertype — which need monotonicity of resource-kindedness along `<:` under `kindStable`;
+    (3) `permits` transitivity for references (M-AUTH) and subset transitivity for intersections;
+    (4) fuel monotonicity of the interpreter to state the result at one fuel. -/
 theorem trans_partial (a b c : Ty) (fuel : Nat)
     (hreg : a = never ∨ c = any ∨ a = b ∨ b = c)
     (hab : isSub R (fuel + 3) a b = true) (hbc : isSub R (fuel + 3) b c = true) :
@@ -83,7 +91,39 @@ theorem trans_partial (a b c : Ty) (fuel : Nat)
   · subst h; exact hbc
   · subst h; exact hab
 
+/-- On the 49 simple types the interpreted rules are the structured relation `psub` (reachability in the
+    parent hierarchy, `Never` bottom): kernel-checked over the whole 49 × 49 table. -/
+theorem simple_agree (a b : String) (ha : a ∈ Struct.primNames) (hb : b ∈ Struct.primNames) :
+    isSub R 120 (.prim a) (.prim b) = Struct.psub a b :=
+  Verif.Proofs.SubStruct.prim_agree a b ha hb
+
+/-- Transitivity on the whole simple-type lattice (all 49³ triples, `Never` and the tops included). -/
+theorem trans_simple_partial (a b c : String)
+    (ha : a ∈ Struct.primNames) (hb : b ∈ Struct.primNames) (hc : c ∈ Struct.primNames)
+    (hab : isSub R 120 (.prim a) (.prim b) = true) (hbc : isSub R 120 (.prim b) (.prim c) = true) :
+    isSub R 120 (.prim a) (.prim c) = true := by
+  rw [simple_agree a b ha hb] at hab
+  rw [simple_agree b c hb hc] at hbc
+  rw [simple_agree a c ha hc]
+  exact Verif.Proofs.SubStruct.psub_trans a b c ha hb hc hab hbc
+
+/-- Transitivity under any stack of covariant container constructors (variable / constant sized
+    arrays, optionals — any nesting, any depth) over the simple-type lattice; includes `Never`
+    elements (`[Never] <: [Int8] <: [Integer]`). -/
+theorem trans_covariant_partial (ctx : Verif.Proofs.SubStruct.Ctx) (a b c : String)
+    (ha : a ∈ Struct.primNames) (hb : b ∈ Struct.primNames) (hc : c ∈ Struct.primNames)
+    (hab : isSub R (120 + ctx.fuel) (ctx.fill (.prim a)) (ctx.fill (.prim b)) = true)
+    (hbc : isSub R (120 + ctx.fuel) (ctx.fill (.prim b)) (ctx.fill (.prim c)) = true) :
+    isSub R (120 + ctx.fuel) (ctx.fill (.prim a)) (ctx.fill (.prim c)) = true := by
+  rw [Verif.Proofs.SubStruct.ctx_agree ctx a b ha hb] at hab
+  rw [Verif.Proofs.SubStruct.ctx_agree ctx b c hb hc] at hbc
+  rw [Verif.Proofs.SubStruct.ctx_agree ctx a c ha hc]
+  exact Verif.Proofs.SubStruct.psub_trans a b c ha hb hc hab hbc
+
 /-! Non-vacuity / teeth -/
+example : isSub R 120 (.prim "Int8") (.prim "SignedInteger") = true ∧ isSub R 120 (.prim "SignedInteger") (.prim "Number") = true := by decide
+example : "Int8" ∈ Struct.primNames ∧ "Never" ∈ Struct.primNames := by decide
+example : (Verif.Proofs.SubStruct.Ctx.opt (.varArr .hole)).fill (.prim "Int8") = .opt (.varArr (.prim "Int8")) := rfl
 example : isSub R 200 (.prim "Int8") (.prim "Number") = true := by decide
 example : isSub R 200 (.prim "Number") (.prim "Int8") = false := by decide
 example : isSub R 200 (.ref (.set .conj ["E1", "E2"]) (.prim "Int")) (.ref (.set .conj ["E1"]) (.prim "Integer")) = true := by decide
